@@ -282,9 +282,9 @@ Fixpoint toks_of (e : sx) {struct e} : list rtok :=
   | X OpEscapeMeta v _ => [RLit (TEsc OpEscapeMeta v)]
   | X OpEscapeOctal v _ => [RLit (TEsc OpEscapeOctal v)]
   | X OpEscapeHex v _ => [RLit (TEsc OpEscapeHex v)]
-  | X OpDot _ _ => [ROp 46]
-  | X OpCaret _ _ => [ROp 94]
-  | X OpDollar _ _ => [ROp 36]
+  | X OpDot v _ => if String.eqb v "." then [ROp 46] else [RLit (TChar v)]
+  | X OpCaret v _ => if String.eqb v "^" then [ROp 94] else [RLit (TChar v)]
+  | X OpDollar v _ => if String.eqb v "$" then [ROp 36] else [RLit (TChar v)]
   | X OpCharClass _ items => [RClass (print e) false items]
   | X OpNegCharClass _ items => [RClass (print e) true items]
   | X OpStar _ [x] => (toks_of x ++ [ROp 42])%list
